@@ -282,6 +282,7 @@ func filterFamily() []*Filt {
 		not(l11),
 		or(l11, l12),
 		fn(l11),
+		fn(l12), // a second function filter from the same function literal, capturing something else
 	}
 }
 
